@@ -236,7 +236,20 @@ def _order_for_sniff(members):
     return mem
 
 
-def _bunch_undirected(fmt, items, mtype):
+def _payload(i, a, fault):
+    """the per-item attribute payload handed to xgi: normally a dict; under the attr_pairs fault
+    an iterable of (key, value) pairs (equally valid for dict.update), under attr_junk a
+    non-mapping value -- never for the first item, which the format sniffing inspects"""
+    d = dict(a or {})
+    if fault and i >= 1 and fault.get("item", 0) == i:
+        if fault.get("kind") == "attr_pairs":
+            return list(d.items())
+        if fault.get("kind") == "attr_junk":
+            return 7
+    return d
+
+
+def _bunch_undirected(fmt, items, mtype, fault=None):
     """items: [(members(list), idx, eattr)] -> python bunch in xgi's format `fmt`."""
     def cont(i, mem):
         mem = list(mem)
@@ -257,9 +270,9 @@ def _bunch_undirected(fmt, items, mtype):
     if fmt == 2:
         return [(cont(i, m), idx) for i, (m, idx, _) in enumerate(items)]
     if fmt == 3:
-        return [(cont(i, m), dict(a or {})) for i, (m, _, a) in enumerate(items)]
+        return [(cont(i, m), _payload(i, a, fault)) for i, (m, _, a) in enumerate(items)]
     if fmt == 4:
-        return [(cont(i, m), idx, dict(a or {})) for i, (m, idx, a) in enumerate(items)]
+        return [(cont(i, m), idx, _payload(i, a, fault)) for i, (m, idx, a) in enumerate(items)]
     if fmt == 5:
         return {idx: cont(1, m) for (m, idx, _) in items}
     raise ValueError(fmt)
@@ -302,7 +315,7 @@ def build(kind, op, a, fault):
     info = {"relaxed": False, "oserror": False, "named": set()}
     fk = (fault or {}).get("kind")
     if fk in ("none_member", "unhashable_member", "dying", "empty_in_bulk", "none_node",
-              "unhashable_node"):
+              "unhashable_node", "attr_junk"):
         info["relaxed"] = True
 
     def named(*xs):
@@ -407,8 +420,17 @@ def build(kind, op, a, fault):
                 items[i] = ([], items[i][1], items[i][2])
             items = _norm_items_undirected(fmt, items)
             attr = _attr(a.get("attr"))
-            bunch = _bunch_undirected(fmt, items, a.get("mtype", "list"))
+            if fk in ("attr_pairs", "attr_junk"):
+                if fmt not in (3, 4) or len(items) < 2:
+                    fault = None
+                    info["relaxed"] = False
+                else:
+                    fault = dict(fault, item=1 + fault.get("item", 0) % (len(items) - 1))
+            bunch = _bunch_undirected(fmt, items, a.get("mtype", "list"), fault)
             mitems, dying = _dying_prefix(items, fault)
+            if fault and fault.get("kind") == "attr_junk":
+                # the junk payload must be rejected: items before it are applied (relaxed judge)
+                mitems = [(m, i2, (d if k != fault["item"] else {"__junk__": [9]})) for k, (m, i2, d) in enumerate(items)]
             if fmt == 5:
                 dying, mitems = False, items
                 if fk == "dying":
@@ -532,6 +554,12 @@ def build(kind, op, a, fault):
                     dd[it[1]] = it
                 items = list(dd.values())
             mt = a.get("mtype", "list")
+            pf = None
+            if fk in ("attr_pairs", "attr_junk"):
+                if fmt in (3, 4) and len(items) >= 2:
+                    pf = dict(fault, item=1 + fault.get("item", 0) % (len(items) - 1))
+                else:
+                    info["relaxed"] = False
 
             def mk(i, t, h):
                 m = mt if i > 0 else ("list" if mt == "iter" else mt)
@@ -542,9 +570,9 @@ def build(kind, op, a, fault):
             elif fmt == 2:
                 bunch = [(mk(i, t, h), idx) for i, ((t, h), idx, _) in enumerate(items)]
             elif fmt == 3:
-                bunch = [(mk(i, t, h), dict(d or {})) for i, ((t, h), _, d) in enumerate(items)]
+                bunch = [(mk(i, t, h), _payload(i, d, pf)) for i, ((t, h), _, d) in enumerate(items)]
             elif fmt == 4:
-                bunch = [(mk(i, t, h), idx, dict(d or {})) for i, ((t, h), idx, d) in enumerate(items)]
+                bunch = [(mk(i, t, h), idx, _payload(i, d, pf)) for i, ((t, h), idx, d) in enumerate(items)]
             else:
                 bunch = {idx: mk(1, t, h) for ((t, h), idx, _) in items}
             attr = _attr(a.get("attr"))
